@@ -24,6 +24,7 @@ import (
 	"fmt"
 
 	"seata.apache.org/seata-go/pkg/datasource/sql/exec"
+	"seata.apache.org/seata-go/pkg/datasource/sql/parser"
 	"seata.apache.org/seata-go/pkg/datasource/sql/types"
 	"seata.apache.org/seata-go/pkg/tm"
 	"seata.apache.org/seata-go/pkg/util/log"
@@ -63,7 +64,13 @@ func (c *ATConn) queryWith(ctx context.Context, query string, args []driver.Name
 		}()
 	}
 
-	ret, err := c.createNewTxOnExecIfNeed(ctx, func() (types.ExecResult, error) {
+	// a read without a lock records nothing and asks the coordinator nothing: it needs no transaction of the
+	// proxy's own around it, and its rows come straight from the driver as the application reads them
+	within := c.createNewTxOnExecIfNeed
+	if isPlainRead(query) {
+		within = func(_ context.Context, f func() (types.ExecResult, error)) (types.ExecResult, error) { return f() }
+	}
+	ret, err := within(ctx, func() (types.ExecResult, error) {
 		executor, err := exec.BuildExecutor(c.res.dbType, c.txCtx.TransactionMode, query)
 		if err != nil {
 			return nil, err
@@ -257,4 +264,10 @@ func (c *ATConn) createNewTxOnExecIfNeed(ctx context.Context, f func() (types.Ex
 	}
 
 	return ret, nil
+}
+
+// isPlainRead tells whether a statement text is a SELECT without a locking clause (or several of them)
+func isPlainRead(query string) bool {
+	parsed, err := parser.DoParser(query)
+	return err == nil && parsed.AllPlainReads()
 }
